@@ -62,6 +62,15 @@ class C:
         return 0
 
 
+@typing.runtime_checkable
+class Proto(typing.Protocol):
+    """a user-written runtime checkable protocol: its member is an ordinary (not abstract) method, as protocols are usually written;
+    implemented by int, bool and C"""
+
+    def __int__(self) -> int:
+        ...
+
+
 @dataclass(frozen=True)
 class TypeDesc:
     hint: object        # what is written in Python source
@@ -80,6 +89,7 @@ TYPES = {
     "Sequence": TypeDesc(collections.abc.Sequence, collections.abc.Sequence, (), "abstract"),
     "list": TypeDesc(list, list, (), "concrete"),
     "SupportsInt": TypeDesc(typing.SupportsInt, typing.SupportsInt, (), "protocol"),
+    "Proto": TypeDesc(Proto, Proto, (), "protocol"),
     "List[int]": TypeDesc(typing.List[int], list, ("int",), "parametrized"),
     "list[int]": TypeDesc(list[int], list, ("int",), "parametrized"),
     "List[str]": TypeDesc(typing.List[str], list, ("str",), "parametrized"),
@@ -112,6 +122,8 @@ def self_check():
         got = [(f.name, f.type) for f in dataclasses.fields(TYPES[model].hint)]
         assert got == [(n, TYPES[t].hint) for n, t in fields], model
     assert issubclass(C, typing.SupportsInt) and not issubclass(A, typing.SupportsInt)
+    assert issubclass(C, Proto) and issubclass(bool, Proto) and not issubclass(A, Proto) and not issubclass(str, Proto)
+    assert inspect.isabstract(typing.SupportsInt) and not inspect.isabstract(Proto)     # the two flavours of protocol
 
 
 # ---------------------------------------------------------------------------------------------------------------
